@@ -68,6 +68,17 @@ class Exec {
   pol::Policy policy;
   std::vector<pol::Who> whos;
   std::vector<std::vector<const pol::Rule *>> rules_of;   // effective rules per connection
+  // ---- configuration reload (C14): the file ReloadConfig will read, and the rule sets it brings
+  bool have_cfg2 = false, have_policy2 = false;
+  pol::Policy policy2;
+  std::vector<std::vector<const pol::Rule *>> rules_of2;
+  std::string cfg2_xml;
+  bm::Limits lim2_model;
+  std::set<std::string> activatable2;
+  bool oom_op_locked = false;
+  int config_loads_before = 0;       // at the operation under the injected failure
+  bool skip_until_retry = false;     // listed finding C14-reload-not-atomic: which configuration governs is unspecified until the retry
+  const std::vector<const pol::Rule *> *active_rules(int c);   // nullptr: everything is allowed by the configuration in force
   std::vector<std::string> names_of(int c);               // names connection c holds (any queue position) + unique name
   void install_policy_hooks();
   std::string known_validator_gap(const std::string &bytes, const std::string &reason);
